@@ -238,41 +238,67 @@ SPEC = {
     "finding_key": finding_key,
     "shrink": shrink,
     "search": search,
-    "level_text": "Proof: for the model of expression elaboration (literals, variables, unary / binary / assignment operators, "
-                  "?:, user-function calls with overload resolution and in/out/inout parameters, casts, return, initialisers) "
-                  "it is proved by induction over all expressions that an accepted expression has the computed type under the "
-                  "IR's own typing judgment (get_type / get_return_type with their asserts as premises), with every "
-                  "sub-expression typed, and that writes to const or rvalue expressions, rvalue/const arguments to out/inout "
-                  "parameters, wrong arity, unconvertible arguments and wrong return types are never accepted. Soundness of "
-                  "ImplicitConversion::find (target = requested type) and of elaboration holds at full strength for debug "
-                  "and release builds (the debug-only type query is proved redundant); the one remaining witness is an "
-                  "rvalue cast reaching an out parameter.",
+    "level_text": "Proof: for the model of elaboration — expressions (literals, variables, unary / binary / assignment operators, ?:, "
+                  "calls of user functions and of the intrinsic functions of the re-extracted signature table with overload "
+                  "resolution and in/out/inout parameters, casts, member access / vector, scalar and matrix swizzles, subscripts of "
+                  "arrays / vectors / matrices, numeric constructors) and statements (expression, return, definitions with "
+                  "expression and aggregate initialisers, blocks, if / for / while / do / switch with their scopes) — it is proved "
+                  "by mutual structural induction over all expressions and statements, for debug and release builds, that an "
+                  "accepted expression has the computed type under the IR's own typing judgment (get_type / get_return_type with "
+                  "their asserts as premises, strengthened for the new nodes: swizzle slots in range, struct member taken from that "
+                  "struct, constructor slot contract), that every expression on every path of an accepted statement list is typed, "
+                  "returns / initialisers (every leaf of an aggregate) have exactly the required type, and that writes (assignment "
+                  "family, ++/--, out/inout arguments of user and intrinsic functions) to const or rvalue expressions — including "
+                  "through projection chains of any length (swizzles, subscripts) on const scalars / vectors / matrices and arrays "
+                  "of const elements —, wrong arity, unconvertible arguments, wrong return / initialiser types, wrong constructor "
+                  "component counts and non-integer subscripts are never accepted. Where the full statement is false on the code it "
+                  "is proved partially and the negation is a decide-checked witness replayed on the implementation: a member of a "
+                  "const struct is written, an element of a non-lvalue is written, an array of const elements is assigned, an "
+                  "rvalue cast reaches an out parameter.",
     "rule": "C03.conv = one row of the exhaustive find/get_target_type table over 8 scalar kinds x {scalar, vec1-4, 2 matrices} "
             "+ enums + structs x modifier sets x {lvalue,rvalue}. C03.prog = (local variable types, function prototypes, return "
             "type, one statement) compiled as an RSSL program through the real type_check: every unary operator on every "
             "operand, binary/assignment/ternary operators on operand pairs, calls, returns, initialisers, templates that are "
-            "well-typed by construction, the same with ONE injected violation (write to const / rvalue literal, sum, call, "
-            "cast, postfix, ternary; ++ on const / rvalue; rvalue or const to out / inout; wrong arity; unconvertible "
-            "argument; wrong return or initialiser type), a stream over volatile / row_major / column_major variables and "
-            "random expressions of depth 1-3; accepted modules are walked node by node (get_type under guard + operand "
-            "exactness oracle). C03.type = the typed statement the real checker produced, re-typed node by node by the real "
-            "get_type and by the model's typeOf. non-trivial = a statement containing an operator, call or conversion.",
+            "well-typed by construction, the same with ONE injected violation, a stream over volatile / row_major / "
+            "column_major variables and random expressions of depth 1-3 (each also run through the extended model: the two "
+            "models must agree). C03.progx = (type definitions: structs with named members, arrays; variables of kind local / "
+            "extern global / static global / parameter; prototypes; return type; a statement list) through the real type_check: "
+            "every member name on every operand; reads, assignments, compound assignments, ++/--, user and intrinsic out/inout "
+            "arguments through access paths and through all type-directed projection chains up to depth 3 on const and non-const "
+            "bases of every kind and on non-lvalue bases; subscripts; constructors with 0-4 arguments; 64 intrinsic names at "
+            "their arities with every operand kind; injected violations; definitions with expression and aggregate initialisers "
+            "(right / wrong counts, nesting, wrong item types); conditions of every type in every statement kind; scopes; "
+            "returns at several nesting depths; random statement trees and expressions. Accepted modules are walked node by "
+            "node (get_type under guard + exactness oracle + declaration-based write oracle). C03.type / C03.typex = the typed "
+            "expression the real checker produced, re-typed node by node by the real get_type and by the model's typeOf. "
+            "C03.src = a raw program (reproducers with buffers / cbuffers), oracle only. non-trivial = a statement containing an "
+            "operator, call, projection, constructor, definition or control statement.",
     "trusted_base": [
         "Lean 4.33 kernel; axioms propext / Classical.choice / Quot.sound only (audited by #print axioms)",
         "tools/gens/c16.py (RankTable) and tools/gens/c03.py (TypingTables: IntrinsicOp, the asserts and result shape of every "
         "arm of get_return_type, ast BinOp/UnaryOp, the operator maps / classes / require_integer / short-circuit lists of "
         "parse_expr_binop, get_non_vector_conversion_rank, most_sig_scalar::get_order, is_integer_or_bool_or_enum, the "
-        "literal re-tagging tables of ImplicitConversion::apply) — re-run on /repo's working tree every time",
-        "hand-written Model/Conv.lean (find, get_target_type), Model/Ty.lean (registry helpers, select_vector_rank, "
-        "most_significant_dimension), Model/IrTyping.lean (get_type) and Model/Elab.lean (parse_expr_*, apply, return, "
-        "initialiser) — tied to the code by the correspondence run only",
-        "the harness oracle (harness/src/c03.rs check rules) is our reading of 'exactly the types it requires'",
+        "literal re-tagging tables of ImplicitConversion::apply; IntrinsicSigs: the INTRINSICS table expanded as add_intrinsics "
+        "registers it; ElabTables: the swizzle character tables and the arm lists of member access / subscript / aggregate "
+        "initialiser) — re-run on /repo's working tree every time",
+        "hand-written Model/Conv.lean (find, get_target_type), Model/Ty.lean, Model/IrTyping.lean + IrTypingX.lean (get_type), "
+        "Model/Elab.lean + ElabX.lean (parse_expr_*, apply, member access, read_matrix_subscript, subscripts, constructors), "
+        "Model/StmtX.lean (parse_statement, parse_initializer, scopes), Model/Intrinsics.lean — tied to the code by the "
+        "correspondence run only",
+        "Spec/ElabX.lean (StmtsTyped, InitTyped, RetExact, projection chains) is our reading of 'every initialiser, return ... "
+        "receives operands of exactly the types it requires'",
+        "the harness oracle (harness/src/c03.rs: check rules of Walk::expr, the declaration-based write oracle Walk::place) is "
+        "our reading of 'exactly the types it requires' and of 'write to const or non-lvalue expressions'",
     ],
     "assumptions": [
-        "TypeId equality is structural equality of types (the type registry hash-conses layers)",
+        "TypeId equality is structural equality of types (the type registry hash-conses layers); a request does not define the "
+        "same array type twice",
         "the harness is a debug build (parse_expr_internal re-derives the type of every node); the theorems cover both build "
         "modes and prove that this query never fires",
-        "no templates, methods, swizzles, subscripts, constructors, enums inside operators (reached by the IR walk only)",
+        "outside the model (answered `unsupported`, reached by the IR walk only): objects (buffers, textures, ConstantBuffer), "
+        "methods, templates (DispatchMesh), enums inside operators, sizeof, case labels that are not literals",
+        "variables of the generated programs have unique names v<i>; a definition declares one variable; user function "
+        "parameters are not arrays",
         "signature parameter types carry no modifier (parse_function_signature strips them)",
     ],
 }
